@@ -40,6 +40,10 @@ ITER_CARD_PRESERVING = {'map', 'enumerate', 'inspect', 'by_ref', 'into_iter', 'p
 # adaptors that keep order but may drop / multiply items according to a closure (lazy, in order)
 ITER_ORDER_PRESERVING_LAZY = {'filter', 'filter_map', 'flat_map', 'flatten', 'map_while', 'take_while', 'skip_while',
                               'scan'} | ITER_CARD_PRESERVING
+# adaptors through which every pulled element reaches the (user) per-element closures: an element is dropped
+# only because a per-element closure (filter / filter_map / flat_map stage) said so - never because of a position,
+# a count or a condition that stops the iteration (take_while, skip, step_by ... discard pulled elements unseen)
+ITER_ELEMENT_FAITHFUL = {'filter', 'filter_map', 'flat_map', 'flatten'} | ITER_CARD_PRESERVING
 # adaptors that change which items are seen irrespective of a user closure
 ITER_CARD_CHANGING = {'take', 'skip', 'step_by', 'rev', 'chain', 'cycle', 'zip', 'dedup', 'last', 'nth', 'peek'}
 # terminals that stop at the first hit (short-circuit, in order)
